@@ -9,6 +9,17 @@ from pysym.api import And, Or, Not, Implies, eq
 from pysym import env
 
 
+def permutations(items):
+    if len(items) <= 1:
+        return [list(items)]
+    out = []
+    for i in range(len(items)):
+        rest = items[:i] + items[i + 1:]
+        for p in permutations(rest):
+            out.append([items[i]] + p)
+    return out
+
+
 def parse(S, text):
     try:
         return core.URI(text), None
@@ -34,27 +45,45 @@ def h_text_roundtrip(S, B):
     S.check("protocol-is-one-of-three", eq(u.protocol, proto))
     S.cover("accepted:" + proto)
     empty_host = And(u.host is not None, len(u.host if u.host is not None else "x") == 0)
-    S.known("C19-empty-host-dropped-from-text-form", empty_host)
-    S.known("C19-host-dot-slash-u-reparsed-as-unix-socket", And(u.host is not None, eq(u.host, "./u")))
+    TEXT_CHECKS = ["text-form-is-accepted-again", "reparsed-uri-is-equal", "reparsed-uri-not-unequal", "same-protocol-object-location",
+                   "text-form-is-a-fixed-point", "state-roundtrip-same-text", "equal-uris-have-equal-hashes"]
+    S.known("C19-empty-host-dropped-from-text-form", empty_host, checks=TEXT_CHECKS)
+    S.known("C19-host-dot-slash-u-reparsed-as-unix-socket", And(u.host is not None, eq(u.host, "./u")), checks=TEXT_CHECKS)
     if proto == "PYROMETA":
+        S.known("C19-pyrometa-tag-containing-an-at-sign-makes-the-text-form-ambiguous",
+                Or(*[("@" in t) for t in u.object]), checks=TEXT_CHECKS + ["hash-is-defined"])
         S.known("C19-pyrometa-only-empty-tag-unparseable-text-form",
-                And(*[len(t) == 0 for t in u.object]))
-    t = str(u)
-    S.observe("text", t if proto != "PYROMETA" else None)
-    u2, why2 = parse(S, t)
-    S.check("text-form-is-accepted-again", u2 is not None)
-    if u2 is None:
-        return
-    S.check("reparsed-uri-is-equal", u2 == u)
-    S.check("reparsed-uri-not-unequal", Not(u2 != u))
-    S.check("same-protocol-object-location", And(eq(u2.protocol, u.protocol), eq(u2.object, u.object),
-                                                 eq(u2.host, u.host), eq(u2.port, u.port), eq(u2.sockname, u.sockname)))
-    if proto != "PYROMETA":
-        t2 = str(u2)
-        S.check("text-form-is-a-fixed-point", eq(t2, t))
+                And(*[len(t) == 0 for t in u.object]), checks=TEXT_CHECKS)
+    if proto == "PYROMETA":
+        # the text form joins the tag set in iteration order, which is arbitrary: every order must parse back
+        tags = list(u.object)
+        S.assume(len(tags) <= 3, "at most three metadata tags")
+        texts = []
+        for perm in permutations(tags):
+            up = core.URI(u)
+            up.object = list(perm)
+            texts.append(str(up))
+    else:
+        texts = [str(u)]
+    S.observe("text", texts[0] if proto != "PYROMETA" else None)
+    t = texts[0]
+    u2 = None
+    for t in texts:
+        u2, why2 = parse(S, t)
+        S.check("text-form-is-accepted-again", u2 is not None)
+        if u2 is None:
+            continue
+        S.check("reparsed-uri-is-equal", u2 == u)
+        S.check("reparsed-uri-not-unequal", Not(u2 != u))
+        S.check("same-protocol-object-location", And(eq(u2.protocol, u.protocol), eq(u2.object, u.object),
+                                                     eq(u2.host, u.host), eq(u2.port, u.port), eq(u2.sockname, u.sockname)))
+        if proto != "PYROMETA":
+            t2 = str(u2)
+            S.check("text-form-is-a-fixed-point", eq(t2, t))
     # hashing
-    S.known("C19-pyrometa-uri-unhashable", proto == "PYROMETA")
+    S.known("C19-pyrometa-uri-unhashable", proto == "PYROMETA", checks=["hash-is-defined"])
     h1 = h2 = None
+    u2 = core.URI(u)           # an equal URI (copy)
     try:
         h1 = hash(u)
         h2 = hash(u2)
@@ -66,7 +95,7 @@ def h_text_roundtrip(S, B):
     u3 = core.URI.__new__(core.URI)
     u3.__setstate__(u.__getstate__())
     S.check("state-roundtrip-equal", u3 == u)
-    S.check("state-roundtrip-same-text", Or(proto == "PYROMETA", eq(str(u3), t)))
+    S.check("state-roundtrip-same-text", Or(proto == "PYROMETA", eq(str(u3), texts[0])))
     # copy constructor
     u4 = core.URI(u)
     S.check("copy-equal", u4 == u)
